@@ -7,6 +7,7 @@ import (
 	"sync/atomic"
 	"time"
 
+	"github.com/internetarchive/Zeno/internal/pkg/config"
 	"github.com/internetarchive/Zeno/internal/pkg/preprocessor"
 	"github.com/internetarchive/Zeno/internal/pkg/preprocessor/seencheck"
 	"github.com/internetarchive/Zeno/internal/pkg/verifhook"
@@ -87,6 +88,7 @@ func c08(args []string) error {
 	tr.Sync = true
 	dir, _ := os.MkdirTemp("", "verif-c08-")
 	defer os.RemoveAll(dir)
+	vh.InitConfig("c08", func(c *config.Config) { c.DisableSeencheck = false; c.UseSeencheck = true })
 	if err := seencheck.Start(dir); err != nil {
 		return err
 	}
@@ -208,6 +210,52 @@ func c08(args []string) error {
 		<-sdone
 		verifhook.Set(nil)
 		check(c08seed("seed", target+"#again", nil), "gated-seed2")
+	}
+
+	// ---- E. whole pages through the real preprocess (normalise, de-duplicate, seencheck, drop what is not fresh, build
+	//         requests): pages of one site share runs of ADJACENT assets; what the store has seen must come out without
+	//         a request, whatever its position in the batch
+	for site := 0; site < 6+nseq/60; site++ {
+		ns := fmt.Sprintf("e%d.", site)
+		sharedN := 3 + r.Intn(4)
+		var shared []string
+		for k := 0; k < sharedN; k++ {
+			shared = append(shared, fmt.Sprintf("http://%sone.example/static/s%d.css?v=1&w=2", ns, k))
+		}
+		for page := 0; page < 4; page++ {
+			pageText := fmt.Sprintf("http://%sone.example/p%d/index.html", ns, page)
+			var texts []string
+			texts = append(texts, fmt.Sprintf("http://%sone.example/p%d/own-first.png", ns, page))
+			texts = append(texts, shared...) // adjacent
+			texts = append(texts, fmt.Sprintf("http://%sone.example/p%d/own-last.png", ns, page))
+			su := c08url(pageText, nil)
+			seed := models.NewItem(fmt.Sprintf("seed-%d", c08id.Add(1)), su, "")
+			var kids []*models.Item
+			var nodes []c08node
+			for i, t := range texts {
+				child := models.NewItem(fmt.Sprintf("e-%d-%d-%d", site, page, i), &models.URL{Raw: t}, "")
+				if err := seed.AddChild(child, models.ItemGotChildren); err != nil {
+					panic(err)
+				}
+				kids = append(kids, child)
+				nodes = append(nodes, c08node{C: c08url(t, su).String(), T: "asset"})
+			}
+			id := callID.Add(1)
+			tr.Emit(map[string]any{"ev": "call", "id": id, "tag": "preprocess", "nodes": nodes})
+			preprocessor.PreprocessForVerif("v", seed)
+			st := []string{}
+			for _, k := range kids {
+				// what matters is whether the node goes on to be fetched: a request was built for it
+				if k.GetStatus() == models.ItemPreProcessed && k.GetURL().GetRequest() != nil {
+					st = append(st, "PreProcessed")
+				} else if k.GetStatus() == models.ItemSeen {
+					st = append(st, "Seen")
+				} else {
+					st = append(st, k.GetStatus().String())
+				}
+			}
+			tr.Emit(map[string]any{"ev": "ret", "id": id, "st": st})
+		}
 	}
 
 	// ---- D. one tree, the same canonical URL in several spellings: after normalisation, de-duplication and
